@@ -383,7 +383,34 @@ func c11R4(p *core.Program, r *core.Report) {
 			}
 		}
 		r.Check(bodyOK, "R4", "refactor.Template/body-copied-unchanged", p.Pos(cb.Pos()), "BODY tokens are written as scanned", "text outside expressions is not copied unchanged by refactor.Template")
-		r.Check(wrapOK >= 2, "R4", "refactor.Template/expressions-rewrapped", p.Pos(cb.Pos()), "identifier/expression tokens are re-wrapped with wrapExpression (refactored and error paths)", "rewritten expressions are not re-wrapped with wrapExpression")
+		// once the expression has been handed to the rewriter, every way out of the callback first writes a re-wrapped
+		// expression (the rewritten one, or the original on the error path)
+		isWrapWrite := func(in ssa.Instruction) bool {
+			ci, ok := in.(ssa.CallInstruction)
+			if !ok {
+				return false
+			}
+			o := core.CalleeObj(ci.Common())
+			if o == nil || core.ObjName(o) != "strings.Builder.WriteString" {
+				return false
+			}
+			c, ok := ci.Common().Args[1].(*ssa.Call)
+			return ok && c.Call.StaticCallee() == wrap
+		}
+		written := core.ForwardMust(cb, false, func(in ssa.Instruction, before bool) bool { return before || isWrapWrite(in) }, nil)
+		var expCall ssa.Instruction
+		for _, cs := range core.Calls(cb, false) {
+			if cs.Common().StaticCallee() == exp {
+				expCall = cs.Instr
+			}
+		}
+		allWrapped := expCall != nil && wrapOK >= 1
+		for _, ret := range core.Returns(cb) {
+			if expCall != nil && core.InstrDominates(expCall, ret) && !written.At(ret) {
+				allWrapped = false
+			}
+		}
+		r.Check(allWrapped, "R4", "refactor.Template/expressions-rewrapped", p.Pos(cb.Pos()), "every return after the rewriter ran is preceded by a write of wrapExpression(...) (rewritten, or original on error)", "some path through refactor.Template's callback leaves an identifier/expression token without writing it back re-wrapped: the expression disappears from the template")
 	}
 	// wrapExpression: IDENTIFIER -> "@"+token ; else "@("+token+")"
 	{
@@ -540,7 +567,12 @@ func c11PrintedTemplates(p *core.Program, strFn *ssa.Function) []c11Printed {
 	}
 	ev.hook = func(ev *tEval, fr *tFrame, c *ssa.Call) (aval, bool) {
 		if c.Call.IsInvoke() && c.Call.Method.Name() == "String" {
-			if fld := fieldOf(c.Call.Value); fld != "" {
+			// the receiver is a field of the node, possibly handed to a helper as an argument
+			rv := c.Call.Value
+			if a, ok := ev.val(fr, rv).(*aUnknown); ok && a.v != nil {
+				rv = a.v
+			}
+			if fld := fieldOf(rv); fld != "" {
 				return holeStr(ev.namedHole("field", fld, -1, false, c)), true
 			}
 		}
